@@ -28,6 +28,11 @@ use crate::compiler::sexp::{
 use crate::compiler::srcloc::Srcloc;
 use crate::util::ErrInto;
 
+/// Upper bound on the evaluation steps one preprocessor macro (defmac)
+/// invocation may take, so a non-terminating macro yields an error rather
+/// than hanging the compiler.
+const MACRO_TIME_LIMIT: usize = 1000000;
+
 /// Determines how an included file is used.
 ///
 /// Basic means that the file contains helper forms to include in the program.
@@ -333,7 +338,7 @@ impl Preprocessor {
                             compiled_program,
                             args.clone(),
                             Some(ppext),
-                            None,
+                            Some(MACRO_TIME_LIMIT),
                         )
                         .map(nilize)
                         .map_err(CompileErr::from)?;
